@@ -71,10 +71,8 @@ def r3(repo, run):
                 else:
                     run.ok('C11.R3', (fi.file, comp.lineno, fi.qualname), norm(comp)[:120], 'keys evaluated too')
     ev = repo.func('EvalNode.ayns.on_evaluate_impl')
-    from .c12 import ENI, exotic_eval_shape
-    why = exotic_eval_shape(ev)
-    if why:
-        raise AnalysisError('EvalNode.on_evaluate_impl: %s - shape not recognised by the trace rules' % why)
+    from .c12 import ENI, GuardedRun
+    run = GuardedRun(run, ev)
     n = 0
     bad = None
     for p in tr.paths_of(repo, ev, no_inline=ENI, follow_exceptions=False):
